@@ -32,20 +32,27 @@ def _send_arg(stmts):
 def _method_call(fn):
     """
     (class raised when `args and kwargs`, argument sent when <test> is truthy, argument sent otherwise, tested name).
-    Accepts `if args: send(args) else: send(kwargs)` and the mirrored `if kwargs: send(kwargs) else: send(args)`;
+    Accepts `if args: send(args) else: send(kwargs)`, the mirrored `if kwargs: send(kwargs) else: send(args)`, their
+    negated forms and the early-return forms;
     both are reported as (raise class, what is sent when positional arguments are present, what is sent when only
     keywords are present, what is sent when neither is present).
     """
     both = None
     choose = None
-    for s in fn.body:
+    for i, s in enumerate(fn.body):
         if not isinstance(s, ast.If):
             continue
         t = s.test
         if isinstance(t, ast.BoolOp) and isinstance(t.op, ast.And) and sorted(filter(None, map(_name, t.values))) == ["args", "kwargs"]:
             both = _raised(s.body)
-        elif _name(t) in ("args", "kwargs"):
-            a, b = _send_arg(s.body), _send_arg(s.orelse)
+            continue
+        # `if not <x>: A else: B` is `if <x>: B else: A`; a branch that returns makes the statements after the `if`
+        # the other branch (`if <x>: return A` / `return B`)
+        then, other = s.body, s.orelse or fn.body[i + 1:]
+        if isinstance(t, ast.UnaryOp) and isinstance(t.op, ast.Not):
+            t, then, other = t.operand, other, then
+        if _name(t) in ("args", "kwargs"):
+            a, b = _send_arg(then), _send_arg(other)
             if a and b:
                 choose = (_name(t), a, b)
     if both is None or choose is None:
